@@ -287,10 +287,14 @@ class State:
                 return to_bool(b.nil)
             return a.ref == b.ref
         if isinstance(a, FuncV) and isinstance(b, FuncV):
+            if (a.fn or a.bound) and (b.fn or b.bound) and a.ref is None and b.ref is None:
+                return z3.BoolVal((a.fn, a.bound) == (b.fn, b.bound) and not a.bindings and not b.bindings)
             if b.ref is not None and z3.eq(b.ref, NIL):
                 return z3.BoolVal(False) if a.ref is None else a.ref == NIL
             if a.ref is not None and z3.eq(a.ref, NIL):
                 return z3.BoolVal(False) if b.ref is None else b.ref == NIL
+            if a.ref is not None and b.ref is not None:
+                return a.ref == b.ref
             raise Unsupported("func equality")
         if isinstance(a, ChanV) and isinstance(b, ChanV):
             if b.nil is True:
